@@ -92,8 +92,10 @@ class TlcResult:
 
 def run_tlc(module, cfg=None, workers=4, timeout=600, env=None, simulate=None, depth=None,
             seed=None, xmx="4g", xss=None, coverage=False, cwd=None, dfs=False, keep_tags=("CASE",),
-            extra=None, metadir=None):
-    """Run TLC on spec/<module>.tla with spec/<cfg>.cfg; collect `<<"TAG", "json">>` lines."""
+            extra=None, metadir=None, keep=None):
+    """Run TLC on spec/<module>.tla with spec/<cfg>.cfg; collect `<<"TAG", "json">>` lines.
+    TLC's output is read as a stream; `keep(tag, payload) -> bool` (optional) decides which emitted records are
+    retained for the replay (TLC has still checked every state; `res.emitted[tag]` counts all of them)."""
     cwd = cwd or SPEC
     cfg = cfg or module
     metadir = metadir or os.path.join(WORK, "tlc", f"{module}_{cfg}_{os.getpid()}")
@@ -122,43 +124,64 @@ def run_tlc(module, cfg=None, workers=4, timeout=600, env=None, simulate=None, d
     res = TlcResult()
     res.cmd = " ".join(cmd)
     t0 = time.time()
+    import threading
+    proc = subprocess.Popen(cmd, cwd=cwd, env=e, stdout=subprocess.PIPE, stderr=subprocess.STDOUT, text=True, errors="replace")
+    timed_out = []
+
+    def _kill():
+        timed_out.append(True)
+        proc.kill()
+    timer = threading.Timer(timeout, _kill)
+    timer.start()
+    tail = []
+    ok_line = False
+    res.emitted = {}
     try:
-        p = subprocess.run(cmd, cwd=cwd, env=e, stdout=subprocess.PIPE, stderr=subprocess.STDOUT,
-                           timeout=timeout, text=True, errors="replace")
-    except subprocess.TimeoutExpired:
-        shutil.rmtree(metadir, ignore_errors=True)
+        for line in proc.stdout:
+            line = line.rstrip("\n")
+            if line.startswith('<<"'):
+                m = _TLA_STR.findall(line)
+                if len(m) >= 2 and line.rstrip().endswith(">>"):
+                    tag = m[0]
+                    try:
+                        payload = json.loads(_unescape(m[1]))
+                    except Exception:
+                        tail.append(line)
+                        continue
+                    res.emitted[tag] = res.emitted.get(tag, 0) + 1
+                    if keep is None or keep(tag, payload):
+                        res.tagged.setdefault(tag, []).append(payload)
+                    continue
+            tail.append(line)
+            if len(tail) > 400:
+                del tail[:200]
+            if "Model checking completed. No error has been found." in line:
+                ok_line = True
+            m = re.search(r"(\d+) states generated, (\d+) distinct states found", line)
+            if m:
+                res.generated, res.distinct = int(m.group(1)), int(m.group(2))
+            m = re.search(r"The depth of the complete state graph search is (\d+)", line)
+            if m:
+                res.depth = int(m.group(1))
+            m = re.match(r"<(\w+) line \d+, col \d+ to line \d+, col \d+ of module (\w+)>: (\d+):(\d+)", line)
+            if m:
+                res.coverage[m.group(1)] = (int(m.group(3)), int(m.group(4)))
+            if "Invariant" in line and "is violated" in line and res.violation is None:
+                res.violation = line.strip()
+            if "Error:" in line and res.violation is None and "Invariant" not in line:
+                res.violation = line.strip()
+        proc.wait()
+    finally:
+        timer.cancel()
+    shutil.rmtree(metadir, ignore_errors=True)
+    if timed_out:
         raise ToolError(f"TLC timeout after {timeout}s: {res.cmd}")
     res.wall = time.time() - t0
-    shutil.rmtree(metadir, ignore_errors=True)
-    out = p.stdout
-    tail = []
-    cur_action = None
-    for line in out.splitlines():
-        if line.startswith('<<"'):
-            m = _TLA_STR.findall(line)
-            if len(m) >= 2 and line.rstrip().endswith(">>"):
-                tag = m[0]
-                try:
-                    payload = json.loads(_unescape(m[1]))
-                except Exception:
-                    tail.append(line)
-                    continue
-                res.tagged.setdefault(tag, []).append(payload)
-                continue
-        tail.append(line)
-        m = re.search(r"(\d+) states generated, (\d+) distinct states found", line)
-        if m:
-            res.generated, res.distinct = int(m.group(1)), int(m.group(2))
-        m = re.search(r"The depth of the complete state graph search is (\d+)", line)
-        if m:
-            res.depth = int(m.group(1))
-        m = re.match(r"<(\w+) line \d+, col \d+ to line \d+, col \d+ of module (\w+)>: (\d+):(\d+)", line)
-        if m:
-            res.coverage[m.group(1)] = (int(m.group(3)), int(m.group(4)))
-        if "Invariant" in line and "is violated" in line and res.violation is None:
-            res.violation = line.strip()
-        if "Error:" in line and res.violation is None and "Invariant" not in line:
-            res.violation = line.strip()
+
+    class _P:
+        returncode = proc.returncode
+    p = _P()
+    out = "Model checking completed. No error has been found." if ok_line else ""
     res.cases = res.tagged.get("CASE", [])
     res.raw_tail = "\n".join(tail[-60:])
     res.ok = "Model checking completed. No error has been found." in out or (
